@@ -151,6 +151,8 @@ def run(ctx):
     ctx.explore("sliding-remaps", archdispatch.gen_sliding, run_case, ctx.n(80, 6000), time_budget=budget)
     ctx.explore("proximity", archdispatch.gen_prox(), run_case, ctx.n(80, 6000), time_budget=budget)
     ctx.explore("sliding-large-float32", gen_sb_large, run_case, ctx.n(60, 4000), time_budget=budget)
+    # a user subclass overriding the documented routing hook `index_of`: every entry point must go through it
+    ctx.explore("hooks", archlib.gen_hooks, run_case, ctx.n(60, 3000), time_budget=budget)
 
 
 def replay(ctx, case):
